@@ -86,7 +86,8 @@ def _run(V, prop, steps, nreq, factory_preempt, race=None):
                 e[1].fire()
             else:
                 pool.shutdown()
-        pre = kit.Preempter(V, None, other_thread, only_unlocked=True)
+        pre = kit.Preempter(V, None, other_thread, only_unlocked=True,
+                            enabled=lambda: bool(world.pending() or world.timers() or not pool.is_shutdown))
         pool._lock = kit.SchedLock('pool._lock', pre)
         pool._stream_available_condition = kit.VirtualCondition(pool._lock)
         def arm(c):
